@@ -8,7 +8,7 @@ call) or delegates only to callees that return immediately when disabled
 import re
 
 from ..facts import extract, extract_split, units_matching, Program, AnalysisBroken, sx_find, sx_str
-from ..match import ev_write, is_call, call_args, call_obj, field_of, var_of, guard_blocks, branch_edges
+from ..match import value_sets, ev_write, is_call, call_args, call_obj, field_of, var_of, guard_blocks, branch_edges
 
 REP = "SimbodyMatterSubsystemRep"
 CI = "SimTK::ConstraintImpl"
@@ -191,24 +191,19 @@ def loops(chk, P):
                         any(sx_find(a, lambda y: y[0] == "var" and y[1] in (locals_ | {lv})) for a in call_args(e))
                     if involved:
                         uses.append((b, i, e))
-            def dis(cc):
-                return bool(sx_find(cc, lambda y: y[0] == "call" and y[1].endswith("::isConstraintDisabled") and any(var_of(a) == lv for a in y[3])))
-            skip_edges = {(bb, tt) for bb, tt in branch_edges(fn, dis, 0) if bb in body}
-            if skip_edges:
-                # (A) every use is unreachable from the loop head except through the not-disabled edge
+            def is_dis(x):
+                return isinstance(x, list) and bool(x) and x[0] == "call" and x[1].endswith("::isConstraintDisabled") and any(var_of(a) == lv for a in x[3])
+            tested = any(fn.blocks[bb].get("term") and fn.blocks[bb]["term"].get("cond") is not None and sx_find(fn.blocks[bb]["term"]["cond"], is_dis) for bb in body)
+            if tested:
+                # (A) value set of isConstraintDisabled(s, cx): whatever the form of the test (early continue, nested if, negation), every use of the
+                # constraint must sit where the predicate can only be false
+                vs = value_sets(fn, is_dis, {"true", "false"})
                 bad = None
                 for b, i, e in uses:
-                    p = fn.path_exists((h, -1), lambda q, e=e: q is e, lambda q: False, avoid_edges={(bb, fn.blocks[bb]["succ"][1]) for bb, _ in skip_edges})
-                    if p is not None:
-                        bad = (e, p)
+                    if vs[b] != {"false"}:
+                        bad = e
                 chk.judge(bad is None, "GUARD", inst + ":guarded", site,
-                          "constraint %s is used (%s) on a path that did not pass the not-disabled side of isConstraintDisabled" % (lv, bad[0]["fn"].split("::")[-1] if bad else ""), bad[1] if bad else None)
-                # the disabled side goes straight to the next iteration
-                for bb, tt in skip_edges:
-                    if bb in body:
-                        tblk = fn.blocks[tt]
-                        chk.judge(not any(ev["k"] == "call" and re.search(r"Constraint", str(ev.get("fn", ""))) and not re.search(r"operator|size", str(ev.get("fn", ""))) for ev in tblk["ev"]),
-                                  "GUARD", inst + ":disabled-side-skips", site, "the disabled branch does nothing with the constraint")
+                          "constraint %s is used (%s) where isConstraintDisabled(s, %s) may be true" % (lv, bad["fn"].split("::")[-1] if bad else "", lv))
             else:
                 # (B) only self-guarding callees
                 names = sorted(set(e["fn"].split("::")[-1] for _, _, e in uses))
